@@ -219,4 +219,216 @@ theorem paintAt_shift (tag : Nat) (ms : Models R) (ctx : Ctx R) (q : Query R) (f
   | 0, hsz => simp at hsz
   | c + 6, hsz => simp at hsz
 
+/-! ### line features: the same two facts -/
+
+theorem LineGrains.get_wf (m : LineGrains R) (isFault : Bool) (pd : PlaneDist R) (n k : Nat) (old new : Grains R)
+    (hwf : old.WF k) (h : m.get isFault pd n old = .ok new) : new.WF k := by
+  obtain ⟨h1, h2⟩ := hwf
+  cases m with
+  | uniform mn mx comps mats sizes =>
+    unfold LineGrains.get at h
+    simp only at h
+    split at h
+    · split at h
+      · simp only [Except.ok.injEq] at h; subst h; exact ⟨h1, h2⟩
+      · cases hm : idx mats ‹Nat› with
+        | error e => simp [hm, bind, Except.bind] at h
+        | ok mat =>
+          cases hs : idx sizes ‹Nat› with
+          | error e => simp [hm, hs, bind, Except.bind] at h
+          | ok gs =>
+            simp [hm, hs, bind, Except.bind, pure, Except.pure] at h
+            subst h
+            constructor <;> simp [h1, h2]
+    · simp only [Except.ok.injEq] at h; subst h; exact ⟨h1, h2⟩
+
+theorem lineGrainsFold_wf (ms : List (LineGrains R)) (isFault : Bool) (pd : PlaneDist R) (n k : Nat) (g0 g1 : Grains R)
+    (h0 : g0.WF k) (h : ms.foldlM (fun g m => m.get isFault pd n g) g0 = .ok g1) : g1.WF k := by
+  induction ms generalizing g0 with
+  | nil => simp [List.foldlM_nil, pure, Except.pure] at h; subst h; exact h0
+  | cons m ms ih =>
+    rw [List.foldlM_cons] at h
+    cases hm : m.get isFault pd n g0 with
+    | error e => simp [hm, bind, Except.bind] at h
+    | ok g' =>
+      simp only [hm, bind, Except.bind] at h
+      exact ih g' (LineGrains.get_wf m isFault pd n k g0 g' h0 hm) h
+
+theorem zipGrains_length (k : Nat) (gc gn : Grains R) (hc : gc.WF k) (hn : gn.WF k)
+    (fs : R → R → R) (fm : M3 R → M3 R → M3 R) :
+    (Grains.toBlock (⟨List.zipWith fs gc.sizes gn.sizes, List.zipWith fm gc.mats gn.mats⟩ : Grains R)).length = k * 10 := by
+  apply Grains.toBlock_length
+  constructor <;> simp [hc.1, hc.2, hn.1, hn.2]
+
+/-- lift a block-level result into the surrounding vector (exception monad) -/
+def embedE (pre post : List R) : Except Err (List R) → Except Err (List R)
+  | .ok b => .ok (pre ++ b ++ post)
+  | .error e => .error e
+
+theorem linePaintAt_length (f : LineFeature R) (ctx : Ctx R) (q : Query R) (h : LineHit R) (p : Req) (blk b : List R)
+    (hsz : p.size? = some blk.length) (hb : linePaintAt f ctx q h p 0 blk = .ok b) : b.length = blk.length := by
+  obtain ⟨code, n, k⟩ := p
+  simp only [Req.size?] at hsz
+  match code, hsz with
+  | 1, hsz =>
+    simp only [Option.some.injEq] at hsz
+    simp only [linePaintAt] at hb
+    cases h0 : idx blk 0 with
+    | error e => simp [h0, bind, Except.bind] at hb
+    | ok old =>
+      simp [h0, bind, Except.bind, pure, Except.pure] at hb
+      subst hb
+      rw [writeBlock_zero] <;> simp [← hsz]
+  | 2, hsz =>
+    simp only [Option.some.injEq] at hsz
+    simp only [linePaintAt] at hb
+    cases h0 : idx blk 0 with
+    | error e => simp [h0, bind, Except.bind] at hb
+    | ok old =>
+      simp only [h0, bind, Except.bind] at hb
+      split at hb
+      · simp at hb
+      · split at hb
+        · simp at hb
+        · simp [pure, Except.pure] at hb
+          subst hb
+          rw [writeBlock_zero] <;> simp [← hsz]
+  | 3, hsz =>
+    simp only [Option.some.injEq] at hsz
+    simp only [linePaintAt, readBlock_zero blk _ hsz.symm] at hb
+    have hwf := Grains.ofBlock_wf k blk hsz.symm
+    simp only [bind, Except.bind] at hb
+    split at hb
+    · simp at hb
+    · rename_i gc hgc
+      split at hb
+      · simp at hb
+      · rename_i gn hgn
+        have hc := lineGrainsFold_wf _ f.isFault h.pd n k _ gc hwf hgc
+        have hn := lineGrainsFold_wf _ f.isFault h.pd n k _ gn hwf hgn
+        simp [pure, Except.pure] at hb
+        subst hb
+        have hl := zipGrains_length k gc gn hc hn
+        rw [writeBlock_zero _ _ (by rw [hl]; omega)]; rw [hl]; omega
+  | 4, hsz =>
+    simp only [Option.some.injEq] at hsz
+    simp [linePaintAt, pure, Except.pure] at hb
+    subst hb
+    rw [writeBlock_zero] <;> simp [← hsz]
+  | 5, hsz =>
+    simp only [Option.some.injEq] at hsz
+    simp only [linePaintAt, bind, Except.bind] at hb
+    split at hb
+    · simp at hb
+    · split at hb
+      · simp at hb
+      · simp [pure, Except.pure] at hb
+        subst hb
+        rw [writeBlock_zero] <;> simp [← hsz]
+  | 0, hsz => simp at hsz
+  | c + 6, hsz => simp at hsz
+
+theorem linePaintAt_shift (f : LineFeature R) (ctx : Ctx R) (q : Query R) (h : LineHit R) (p : Req) (pre blk post : List R)
+    (hsz : p.size? = some blk.length) :
+    linePaintAt f ctx q h p pre.length (pre ++ blk ++ post) = embedE pre post (linePaintAt f ctx q h p 0 blk) := by
+  have hlen := fun b => linePaintAt_length f ctx q h p blk b hsz
+  obtain ⟨code, n, k⟩ := p
+  simp only [Req.size?] at hsz
+  match code, hsz with
+  | 1, hsz =>
+    simp only [Option.some.injEq] at hsz
+    have hpos : 0 < blk.length := by omega
+    simp only [linePaintAt, idx_append_zero pre blk post hpos]
+    cases h0 : idx blk 0 with
+    | error e => simp [bind, Except.bind, embedE]
+    | ok old =>
+      simp only [bind, Except.bind, pure, Except.pure, embedE]
+      rw [writeBlock_append _ _ _ _ (by simp [← hsz]), writeBlock_zero _ _ (by simp [← hsz])]
+  | 2, hsz =>
+    simp only [Option.some.injEq] at hsz
+    have hpos : 0 < blk.length := by omega
+    simp only [linePaintAt, idx_append_zero pre blk post hpos]
+    cases h0 : idx blk 0 with
+    | error e => simp [bind, Except.bind, embedE]
+    | ok old =>
+      simp only [bind, Except.bind]
+      split
+      · simp [embedE]
+      · split
+        · simp [embedE]
+        · simp only [pure, Except.pure, embedE]
+          rw [writeBlock_append _ _ _ _ (by simp [← hsz]), writeBlock_zero _ _ (by simp [← hsz])]
+  | 3, hsz =>
+    simp only [Option.some.injEq] at hsz
+    have h3 := hlen
+    simp only [linePaintAt, readBlock_append pre blk post _ hsz.symm, readBlock_zero blk _ hsz.symm] at h3 ⊢
+    simp only [bind, Except.bind] at h3 ⊢
+    split
+    · simp [embedE]
+    · rename_i gc hgc
+      split
+      · simp [embedE]
+      · rename_i gn hgn
+        simp only [hgc, hgn, pure, Except.pure] at h3
+        have hl := h3 _ rfl
+        simp only [pure, Except.pure, embedE]
+        have hwf := Grains.ofBlock_wf k blk hsz.symm
+        have hc := lineGrainsFold_wf _ f.isFault h.pd n k _ gc hwf hgc
+        have hn := lineGrainsFold_wf _ f.isFault h.pd n k _ gn hwf hgn
+        have hbl := zipGrains_length k gc gn hc hn
+        rw [writeBlock_append _ _ _ _ (by rw [hbl]; omega), writeBlock_zero _ _ (by rw [hbl]; omega)]
+  | 4, hsz =>
+    simp only [Option.some.injEq] at hsz
+    simp only [linePaintAt, pure, Except.pure, embedE]
+    rw [writeBlock_append _ _ _ _ (by simp [← hsz]), writeBlock_zero _ _ (by simp [← hsz])]
+  | 5, hsz =>
+    simp only [Option.some.injEq] at hsz
+    have e0 : idx (pre ++ blk ++ post) pre.length = idx blk 0 := idx_append_zero pre blk post (by omega)
+    have e1 : idx (pre ++ blk ++ post) (pre.length + 1) = idx blk 1 := idx_append_left pre blk post 1 (by omega)
+    simp only [linePaintAt, e0, e1, Nat.zero_add]
+    simp only [bind, Except.bind]
+    split
+    · simp [embedE]
+    · split
+      · simp [embedE]
+      · simp only [pure, Except.pure, embedE]
+        rw [writeBlock_append _ _ _ _ (by simp [← hsz]), writeBlock_zero _ _ (by simp [← hsz])]
+  | 0, hsz => simp at hsz
+  | c + 6, hsz => simp at hsz
+
+/-! ### a covering feature, abstractly -/
+
+/-- what a feature that covers the query point does: an area feature / plume with its models and the numbers handed to them,
+or a slab / fault with its geometry result -/
+inductive Hit (R : Type)
+  | areaLike (tag : Nat) (ms : Models R) (fMin fMax rel : R)
+  | line (f : LineFeature R) (h : LineHit R)
+
+def Hit.tag : Hit R → Nat
+  | .areaLike tag .. => tag
+  | .line f _ => f.tag
+
+/-- the per-request `switch` of the covering feature -/
+def Hit.paintAt (hit : Hit R) (ctx : Ctx R) (q : Query R) (p : Req) (e : Nat) (out : List R) : QM G (List R) :=
+  match hit with
+  | .areaLike tag ms a b r => Gwb.paintAt tag ms ctx q a b r p e out
+  | .line f h => liftE (linePaintAt f ctx q h p e out)
+
+theorem Hit.paintAt_length (hit : Hit R) (ctx : Ctx R) (q : Query R) (p : Req) (blk : List R) (hsz : p.size? = some blk.length) :
+    Post (G := G) (hit.paintAt ctx q p 0 blk) (fun b => b.length = blk.length) := by
+  cases hit with
+  | areaLike tag ms a b r => exact Gwb.paintAt_length tag ms ctx q a b r p blk hsz
+  | line f h => exact Post.liftE (fun b hb => linePaintAt_length f ctx q h p blk b hsz hb)
+
+theorem Hit.paintAt_shift (hit : Hit R) (ctx : Ctx R) (q : Query R) (p : Req) (pre blk post : List R) (g : G)
+    (hsz : p.size? = some blk.length) :
+    hit.paintAt ctx q p pre.length (pre ++ blk ++ post) g = embed pre post (hit.paintAt ctx q p 0 blk g) := by
+  cases hit with
+  | areaLike tag ms a b r => exact Gwb.paintAt_shift tag ms ctx q a b r p pre blk post g hsz
+  | line f h =>
+    simp only [Hit.paintAt, linePaintAt_shift f ctx q h p pre blk post hsz]
+    cases linePaintAt f ctx q h p 0 blk with
+    | error e => simp [embedE, liftE_error, embed]
+    | ok b => simp [embedE, liftE_ok, embed]
+
 end Gwb
